@@ -71,6 +71,161 @@ pub fn read_with_bufs<R: Read>(r: &mut R, bufs: &[usize], cap: usize) -> Result<
     Ok(out)
 }
 
+/// Names of the caller-side `Read` APIs `read_with_api` can finish an entry with.
+pub const READ_APIS: [&str; 7] = ["read() loop", "read_to_end", "read_exact(size)+read_to_end", "io::copy", "read_vectored", "bytes()+read_to_end", "read_to_string"];
+
+/// Like `read_with_bufs`, but a caller that mixes the `Read` entry points: the first `bufs.len()`
+/// calls are plain `read()`s with the scheduled buffer sizes, then the rest of the entry is fetched through
+/// the API selected by `api` (index into READ_APIS). `ErrorKind::Interrupted` from a plain read is retried,
+/// as the `Read` contract asks (std's own read_to_end / read_exact / io::copy do the same internally).
+/// `hint` = the entry's declared size (for read_exact).
+pub fn read_with_api<R: Read>(r: &mut R, bufs: &[usize], cap: usize, api: u8, hint: u64) -> Result<Vec<u8>, String> {
+    use std::io::ErrorKind::Interrupted;
+    let api = api as usize % READ_APIS.len();
+    let mut out = Vec::new();
+    let mut scratch = vec![0u8; bufs.iter().copied().max().unwrap_or(4096).max(4096)];
+    let mut eof = false;
+    let mut i = 0usize;
+    let mut retries = 0usize;
+    let prefix_calls = if api == 0 { usize::MAX } else { bufs.len().max(1) };
+    while i < prefix_calls {
+        let want = if bufs.is_empty() { 4096 } else { bufs[i % bufs.len()] };
+        let n = match r.read(&mut scratch[..want]) {
+            Ok(n) => n,
+            Err(e) if e.kind() == Interrupted && retries < 1_000_000 => {
+                retries += 1;
+                continue;
+            }
+            Err(e) => return Err(format!("read error: {e}")),
+        };
+        i += 1;
+        if want == 0 {
+            if n != 0 {
+                return Err("zero-length read returned non-zero".into());
+            }
+            if api == 0 && bufs.iter().all(|&b| b == 0) {
+                return Err("harness: all-zero buffer schedule".into());
+            }
+            continue;
+        }
+        if n == 0 {
+            eof = true;
+            break;
+        }
+        if n > want {
+            return Err("read returned more than the buffer length".into());
+        }
+        out.extend_from_slice(&scratch[..n]);
+        if out.len() > cap {
+            return Err("output exceeds cap".into());
+        }
+    }
+    if !eof {
+        let before = out.len();
+        match api {
+            1 => {
+                let n = r.read_to_end(&mut out).map_err(|e| format!("read error: {e}"))?;
+                if n != out.len() - before {
+                    return Err(format!("read_to_end reported {n} bytes but appended {}", out.len() - before));
+                }
+            }
+            2 => {
+                let want = (hint.saturating_sub(before as u64) as usize).min(cap);
+                let mut b = vec![0u8; want];
+                r.read_exact(&mut b).map_err(|e| format!("read error: {e}"))?;
+                out.extend_from_slice(&b);
+                let n = r.read_to_end(&mut out).map_err(|e| format!("read error: {e}"))?;
+                if n != out.len() - before - want {
+                    return Err(format!("read_to_end reported {n} bytes but appended {}", out.len() - before - want));
+                }
+            }
+            3 => {
+                let n = std::io::copy(r, &mut out).map_err(|e| format!("read error: {e}"))?;
+                if n != (out.len() - before) as u64 {
+                    return Err(format!("io::copy reported {n} bytes but delivered {}", out.len() - before));
+                }
+            }
+            4 => loop {
+                let (a, rest) = scratch.split_at_mut(3);
+                let (b, c) = rest.split_at_mut(61);
+                let total = a.len() + b.len() + c.len().min(500);
+                let mut v = [std::io::IoSliceMut::new(a), std::io::IoSliceMut::new(b), std::io::IoSliceMut::new(&mut c[..500])];
+                let n = match r.read_vectored(&mut v) {
+                    Ok(n) => n,
+                    Err(e) if e.kind() == Interrupted && retries < 1_000_000 => {
+                        retries += 1;
+                        continue;
+                    }
+                    Err(e) => return Err(format!("read error: {e}")),
+                };
+                if n == 0 {
+                    break;
+                }
+                if n > total {
+                    return Err("read_vectored returned more than the buffers hold".into());
+                }
+                out.extend_from_slice(&scratch[..n]);
+                if out.len() > cap {
+                    return Err("output exceeds cap".into());
+                }
+            },
+            5 => {
+                let mut k = 0;
+                let mut ended = false;
+                {
+                    let mut it = r.by_ref().bytes();
+                    while k < 300 {
+                        match it.next() {
+                            None => {
+                                ended = true;
+                                break;
+                            }
+                            Some(Ok(b)) => out.push(b),
+                            Some(Err(e)) if e.kind() == Interrupted && retries < 1_000_000 => {
+                                retries += 1;
+                                continue;
+                            }
+                            Some(Err(e)) => return Err(format!("read error: {e}")),
+                        }
+                        k += 1;
+                    }
+                }
+                if !ended {
+                    r.read_to_end(&mut out).map_err(|e| format!("read error: {e}"))?;
+                }
+            }
+            6 => {
+                // read_to_string: succeeds exactly when the rest is valid UTF-8; otherwise InvalidData -
+                // fall back to nothing (the case is then judged as a read error on both sides alike)
+                let mut s = String::new();
+                match r.read_to_string(&mut s) {
+                    Ok(n) => {
+                        if n != s.len() {
+                            return Err(format!("read_to_string reported {n} bytes but appended {}", s.len()));
+                        }
+                        out.extend_from_slice(s.as_bytes());
+                    }
+                    Err(e) => return Err(format!("read error: {e}")),
+                }
+            }
+            _ => unreachable!(),
+        }
+        if out.len() > cap {
+            return Err("output exceeds cap".into());
+        }
+    }
+    let mut k = 0;
+    while k < 3 {
+        match r.read(&mut scratch[..]) {
+            Ok(0) => k += 1,
+            Ok(n) => return Err(format!("read after end-of-file returned {n} bytes")),
+            Err(e) if e.kind() == Interrupted && retries < 1_000_000 => retries += 1,
+            Err(e) => return Err(format!("read after end-of-file failed: {e}")),
+        }
+    }
+    Ok(out)
+}
+
 pub fn observe_file(f: &mut zip::read::ZipFile<'_>, bufs: &[usize]) -> Obs {
     let lm = f.last_modified();
     let mut o = Obs {
